@@ -302,14 +302,14 @@ def generated_worker(task):
     acc = Acc()
     pats = c07.pattern_list(kind, tier)[lo:hi]
     for pat in pats:
-        sens = bool(T.relevant_class_components(pat.text, pat.names))
-        for cname in ((cnames + synthetic_for(pat)) if sens else cnames[:1]):
+        sens = bool(T.relevant_class_components(pat.text, pat.names)) or pat.delim == "emb-std"
+        for cname in (tuple(dict.fromkeys(cnames + synthetic_for(pat) + (OTHER_CULTURES if pat.delim == "emb-std" else ()))) if sens else cnames[:1]):
             p = try_create(acc, kind, pat.text, cname)
             if p is None:
                 continue
             values = probe_values(kind, "cal" in pat.names)
             info = {"kind": kind, "pattern": pat.text, "culture": cname}
-            if cname == "":
+            if cname == "" or pat.delim == "emb-std":
                 probe_pattern(acc, kind, p, info, values, 1 if tier == "quick" else 3)
             else:
                 probe_pattern(acc, kind, p, info, values[:3], 0, hostile=False)
